@@ -13,6 +13,9 @@ import (
 func worldWidths(k, realH int64) int64 { return k << uint(realH) }
 
 func evShift(t *Tracer, w Win, id ID, dx, dy, dv, kx, ky int64) {
+	if !(w.validIDs(id)) {
+		return // outside the documented domain: not a case
+	}
 	rid := w.E(id)
 	rdx, rdy := dx+worldWidths(kx, rid.H), dy+worldWidths(ky, rid.H)
 	mdx, mdy := dx, dy
@@ -35,6 +38,9 @@ func evShift(t *Tracer, w Win, id ID, dx, dy, dv, kx, ky int64) {
 
 // evShiftCompose: shift by d1, then by d2; shift by d1+d2; shift back by -d1.
 func evShiftCompose(t *Tracer, w Win, id ID, d1, d2 [3]int64) {
+	if !(w.validIDs(id)) {
+		return // outside the documented domain: not a case
+	}
 	rid := w.E(id)
 	e := w.ev("ShiftCompose", map[string]any{"id": id.Arr(), "d1": d1[:], "d2": d2[:]})
 	e.Real = map[string]any{"id": rid.String()}
@@ -57,6 +63,9 @@ func evShiftCompose(t *Tracer, w Win, id ID, d1, d2 [3]int64) {
 }
 
 func evNeighbours(t *Tracer, w Win, id ID, kind string) {
+	if !(w.validIDs(id)) {
+		return // outside the documented domain: not a case
+	}
 	rid := w.E(id)
 	o, res := guard(func() (any, error) {
 		switch kind {
@@ -80,6 +89,9 @@ func evNeighbours(t *Tracer, w Win, id ID, kind string) {
 }
 
 func evNLayer(t *Tracer, w Win, ids []ID, hl, vl int64) {
+	if !(w.validIDs(ids...)) {
+		return // outside the documented domain: not a case
+	}
 	real := w.embedExtList(ids)
 	snap := append([]string(nil), real...)
 	o, res := guard(func() (any, error) {
